@@ -27,7 +27,8 @@ CONSTANTS
     ModelSeq,   \* model names (fully qualified, "parent.child"), sorted by name
     Cap,        \* Cap[m]: mailbox capacity, also for the pseudo-target "ORPHAN"
     Prog,       \* Prog[i]: sequence of ops [op, port, prog]; op in {"send", "query", "nop"}
-    Ports,      \* Ports[m][p]: sequence of connections [tgt, mode, accept, delta]
+    Ports,      \* Ports[m][p]: sequence of connections [tgt, mode, accept, delta]; Ports["drv"][k]: the driver's
+                \*   k-th event / query source
                 \*   tgt: model name, "ORPHAN" or "sink:<name>"; mode: "plain" | "map" | "filter"
                 \*   accept: set of program numbers let through by filter_map ({} = everything)
                 \*   delta: added to the program number by map / filter_map
@@ -100,27 +101,49 @@ Sub(tgt, id, prog, kind, stamp, radd) ==
     [tgt |-> tgt, st |-> "todo", reply |-> 0, radd |-> radd,
      msg |-> [id |-> id, prog |-> prog, kind |-> kind, stamp |-> stamp]]
 
-(* process_event / process_query: a one-shot task that sends one message. *)
+Accepts(c, prog) == c.mode # "filter" \/ c.accept = {} \/ prog \in c.accept
+Mapped(c, prog) == IF c.mode = "plain" THEN prog ELSE prog + c.delta
+
+(* The sub-sends of one broadcast of sender t through a port (or an event / query source): one per connection *)
+(* that accepts the message, in connection order, each with its mapped message.                          *)
+MakeSubs(t, n1, v1, conns, prog, isQuery) ==
+    LET acc == SelectSeq([i \in 1..Len(conns) |-> [i |-> i, c |-> conns[i]]], LAMBDA e : Accepts(e.c, prog))
+    IN  [k \in 1..Len(acc) |->
+            Sub(acc[k].c.tgt,
+                [s |-> t, n |-> n1, c |-> IF acc[k].c.mode = "plain" THEN 0 ELSE acc[k].i],
+                Mapped(acc[k].c, prog),
+                IF isQuery THEN "qry" ELSE "ev", v1,
+                IF acc[k].c.mode = "plain" THEN 0 ELSE 100000 * acc[k].i)]
+
+(* Event / query sources of the driver: Ports["drv"][k], named "S1", "S2", ... *)
+SrcIndex(name) == CASE name = "S1" -> 1 [] name = "S2" -> 2 [] name = "S3" -> 3 [] name = "S4" -> 4 [] OTHER -> 0
+
+(* process_event / process_query: a one-shot task that sends one message; process(source action): a one-shot *)
+(* task that broadcasts through an event source or a query source ("srcevent" / "srcquery").                 *)
 DProcess(kind, tgt, prog) ==
     /\ phase = "idle" /\ inited = Models
-    /\ kind \in {"event", "query"} /\ tgt \in Boxes
+    /\ \/ kind \in {"event", "query"} /\ tgt \in Boxes
+       \/ kind \in {"srcevent", "srcquery"} /\ SrcIndex(tgt) \in 1..Len(Ports["drv"])
     /\ cmd' = [name |-> kind, target |-> tgt, prog |-> prog]
     /\ IF terminated
        THEN /\ phase' = "ret" /\ result' = Res("terminated", "", 0, <<>>)
             /\ UNCHANGED <<ms, vc, sent>>
        ELSE LET n1 == ms["drv"].n + 1
                 v1 == [vc["drv"] EXCEPT !["drv"] = @ + 1]
+                isQ == kind \in {"query", "srcquery"}
+                subs == IF kind \in {"event", "query"}
+                        THEN <<Sub(tgt, [s |-> "drv", n |-> n1, c |-> 0], prog, IF isQ THEN "qry" ELSE "ev", v1, 0)>>
+                        ELSE MakeSubs("drv", n1, v1, Ports["drv"][SrcIndex(tgt)], prog, isQ)
+                toModels == SelectSeq(subs, LAMBDA sb : sb.tgt \in Models)
             IN  /\ phase' = "run" /\ UNCHANGED result
                 /\ vc' = [vc EXCEPT !["drv"] = v1]
-                /\ sent' = IF tgt \in Models
-                           THEN Append(sent, [model |-> tgt, prog |-> prog,
-                                              kind |-> IF kind = "query" THEN "qry" ELSE "ev"])
-                           ELSE sent
+                /\ sent' = sent \o [k \in 1..Len(toModels) |->
+                                       [model |-> toModels[k].tgt, prog |-> toModels[k].msg.prog,
+                                        kind |-> toModels[k].msg.kind]]
                 /\ ms' = [ms EXCEPT !["drv"] =
                             [IdleTask EXCEPT !.st = "op", !.n = n1,
-                                             !.opkind = IF kind = "query" THEN "query" ELSE "send",
-                                             !.subs = <<Sub(tgt, [s |-> "drv", n |-> n1, c |-> 0], prog,
-                                                            IF kind = "query" THEN "qry" ELSE "ev", v1, 0)>>]]
+                                             !.opkind = IF isQ THEN "query" ELSE "send",
+                                             !.subs = subs]]
     /\ UNCHANGED <<q, sinkLog, inited, terminated, panicked, seen, handled>>
 
 -----------------------------------------------------------------------------
@@ -157,8 +180,6 @@ InHandler(m) == ms[m].st = "handler"
 AtOp(m) == InHandler(m) /\ ms[m].pc <= ProgLen(ms[m].prog)
 CurOp(m) == Prog[ms[m].prog][ms[m].pc]
 
-Accepts(c, prog) == c.mode # "filter" \/ c.accept = {} \/ prog \in c.accept
-Mapped(c, prog) == IF c.mode = "plain" THEN prog ELSE prog + c.delta
 
 (* A port operation starts: the broadcaster builds one sub-send per connection that accepts the message. *)
 OpStart(m) ==
@@ -174,15 +195,7 @@ OpStart(m) ==
                 /\ ms' = [ms EXCEPT ![m].st = "dead"]
                 /\ panicked' = m
                 /\ UNCHANGED <<vc, sent>>
-           ELSE LET conns == Ports[m][op.port]
-                    acc   == SelectSeq([i \in 1..Len(conns) |-> [i |-> i, c |-> conns[i]]],
-                                       LAMBDA e : Accepts(e.c, op.prog))
-                    subs  == [k \in 1..Len(acc) |->
-                                 Sub(acc[k].c.tgt,
-                                     [s |-> m, n |-> n1, c |-> IF acc[k].c.mode = "plain" THEN 0 ELSE acc[k].i],
-                                     Mapped(acc[k].c, op.prog),
-                                     IF op.op = "query" THEN "qry" ELSE "ev", v1,
-                                     IF acc[k].c.mode = "plain" THEN 0 ELSE 100000 * acc[k].i)]
+           ELSE LET subs     == MakeSubs(m, n1, v1, Ports[m][op.port], op.prog, op.op = "query")
                     toModels == SelectSeq(subs, LAMBDA sb : sb.tgt \in Models)
                 IN  /\ ms' = [ms EXCEPT ![m] = [@ EXCEPT !.st = "op", !.n = n1, !.subs = subs, !.opkind = op.op]]
                     /\ vc' = [vc EXCEPT ![m] = v1]
